@@ -4,6 +4,7 @@ import os
 
 from pv import gallina as G
 from pv.canon import B, outcome
+from props._c12_gen import TranslateError, gen_tables  # noqa: F401  (pv/core.py calls gen_tables on every run: coq/Gen/C12_Tables.v)
 
 ID = "C12"
 COQ_REQUIRE = "C12.Run"
@@ -39,7 +40,12 @@ TRUSTED = ["live cases: the kernel printers k_cmdline/k_environ/k_link and the c
            "path_exists_strict() on link targets; objects below the placeholder directory are reached unpatched)",
            "formats of /proc/<pid>/cmdline, environ, exe, cwd and stat comm (proc(5)) transcribed in coq/C12/Spec.v",
            "hand-written model coq/C12/Model.v, UTF-8/surrogateescape decoder and universal-newline reader coq/C12/Lib.v "
-           "(tied to the code by the correspondence run only)"]
+           "(tied to the code by the correspondence run only) -- EXCEPT Process.cmdline() of _pslinux.py and Process.name() of __init__.py, "
+           "whose control flow is translated from the current source on every run (props/_c12_gen.py -> coq/Gen/C12_Tables.v) and proved "
+           "equal to Model.pl_cmdline / Model.fe_name on all inputs (coq/C12/ProofsGen.v); still hand-written: parse_environ_block, readlink/_readlink, "
+           "wrap_exceptions, exe() and its guess, open_text",
+           "translator props/_c12_gen.py (Python ast -> the statement languages of coq/C12/PyGen.v; fails closed on unknown shapes) and the "
+           "interpreters of coq/C12/PyGen.v (meaning given to str.endswith/split/[:-1]/in, len, os.fsencode, os.path.basename, try/except/else)"]
 ASSUMPTIONS = ["CPython semantics of str.split/find/endswith/startswith, text-mode open() (utf-8, surrogateescape, newline=\"\" for cmdline/environ), "
                "os.path.basename/isabs/isfile and dict are modelled, not verified",
                "searching a surrogateescape-decoded str for NUL, ' ', '=', '/' equals searching the bytes (sampled with invalid UTF-8)",
@@ -1244,8 +1250,15 @@ MANIFEST = {
             "without exclusions. The two statements this check first refuted (CR/CRLF translated to LF by the text-mode read of "
             "cmdline/environ; 15-byte non-ASCII names not extended; both repaired in /repo, 46827e5 and 76627f6) are kept as refuted "
             "theorems about the old configuration and their inputs are replayed from the corpus on every run. "
-            "The model is tied to the code by running both on generated and exhaustive inputs.",
+            "The model is tied to the code by running both on generated and exhaustive inputs; in addition the bodies of Process.cmdline() "
+            "(_pslinux.py: newline=\"\" read, empty-file zombie test, separator choice, trailing-separator strip, split, re-split of a lone piece "
+            "with a space) and of psutil.Process.name() (__init__.py: the WINDOWS cache guard, the 15-byte fsencode test, try cmdline() except "
+            "(AccessDenied, ZombieProcess) else basename(cmdline[0]) / fsencode startswith, the stores into _name) are translated statement by "
+            "statement from the source of the tree under check into small statement languages (coq/Gen/C12_Tables.v, regenerated on every run, "
+            "unknown shapes refuse to translate) and the interpreters run on the translated programs are proved equal to the model functions "
+            "for all inputs (C12_gen_cmdline_*, C12_gen_name_*): a semantic edit of these methods breaks a proof.",
     "note": "Trusted: Coq kernel + vm_compute; hand-written model coq/C12/Model.v and text layer coq/C12/Lib.v (tied by the correspondence "
-            "run only); kernel formats in coq/C12/Spec.v; harness (fake /proc, os.readlink/os.stat/os.access/open patches); CPython builtins. "
+            "run only, except pl_cmdline and fe_name which are proved equal to the programs translated from the source; the translator "
+            "props/_c12_gen.py and the interpreters coq/C12/PyGen.v are trusted for that); kernel formats in coq/C12/Spec.v; harness (fake /proc, os.readlink/os.stat/os.access/open patches); CPython builtins. "
             "Proof covers the model, sampling covers model-vs-code.",
 }
